@@ -180,6 +180,7 @@ pub fn c17(a: &Args, rep: &mut Report) {
         one_c17("C17", &c, rep);
     });
     large_cases(a, rep, "C17", &[3000, 20000, 60000, 20000], &[3000, 20000, 60000, 200000, 200000], |c, rep| one_c17("C17", c, rep));
+    zoom_cells(a, rep, "C17", false, 400, 6000, |c, rep| one_c17("C17", c, rep));
 }
 
 // ------------------------------------------------------------------------------------------------
@@ -364,4 +365,5 @@ pub fn c16(a: &Args, rep: &mut Report) {
         with_random_mask("C16mask", a, k, &mut c, 4);
         one_c16("C16", &c, rep);
     });
+    zoom_cells(a, rep, "C16", false, 400, 6000, |c, rep| crate::p_zoom::one_zoom("C16", c, rep));
 }
